@@ -99,3 +99,42 @@ pub fn check_ins(
         }
     }
 }
+
+/// End-of-memory plane shared by the value monitors: instructions from `gen` are executed with their memory /
+/// label operand aimed at physical 0xFFFFD..0xFFFFF and 0, and everything but the status flags (which the
+/// value planes judge) is compared with the reference: a word at 0xFFFFF has its high byte at physical 0.
+pub fn edge_plane(rep: &crate::report::Report, n: usize, seed: u64, core: bool, what: &str, prefix: &str, gen: &(dyn Fn(&mut crate::util::Rng) -> Ins + Sync)) {
+    use crate::gen::*;
+    let jobs = 16usize;
+    crate::util::par_for(jobs, 1, |j| {
+        let mut rng = crate::util::Rng::new(seed).fork(0xED6E_0000 + j as u64);
+        let mut b = crate::c01::bench_with_labels(0xE0 + j as u32);
+        for (nm, o) in EDGE_LABELS {
+            b.add_data_label(nm, o);
+        }
+        let mut agg = FailAgg::new();
+        let mut loc = crate::report::Local::default();
+        let mut it = 0usize;
+        let mut done = 0usize;
+        while done < n / jobs && it < n {
+            it += 1;
+            let mut ins = gen(&mut rng);
+            rename_label(&mut ins, &mut rng);
+            let mut pre = hostile_regs(&mut rng);
+            let target = [0xFFFFFu32, 0xFFFFE, 0xFFFFF, 0x00000, 0xFFFFD, 0xFFFFF][it % 6];
+            let labels = b.labels.clone();
+            if !aim_operand(&ins, &mut pre, &labels, target) {
+                continue;
+            }
+            done += 1;
+            let line = ins.ir();
+            let mn = ins.class().split(' ').next().unwrap_or("?").to_string();
+            let out = check_ins(&mut b, &ins, &line, &pre, &mut agg, core, what, &|c| if c.starts_with("flag:") { None } else { Some(format!("{}:memory-edge:{}:{}", prefix, mn, if c.starts_with("reg:") { "register" } else { c })) });
+            loc.evals += 1;
+            loc.distinct.insert(fnv64(format!("edge|{}|{:05x}|{}", ins.class(), target, out.alt).as_bytes()));
+        }
+        loc.counters.insert("instructions judged with an operand aimed at the end of memory", done as u64);
+        agg.flush(rep);
+        loc.flush(rep);
+    });
+}
